@@ -686,11 +686,15 @@ struct PartB {
         const Rec& r = recs[f.rec];
         (void)scratch;
         const bool tr = getenv("C17_TRACE");
+        if (const char* a = getenv("C17_ALARM")) ualarm(atoi(a), 0);
         if (tr) fprintf(stderr, "[%d] job start %.3f\n", (int)getpid(), vx::elapsed());
         // the worker owns a private copy of the block files (made in on_worker_start); start from intact bytes
         FileMut fm;
+        if (tr) fprintf(stderr, "[%d] before open %.4f\n", (int)getpid(), vx::elapsed());
         fm.Open(File(false, r.file), blk_pristine[r.file]);
+        if (tr) fprintf(stderr, "[%d] opened %.4f size=%zu\n", (int)getpid(), vx::elapsed(), blk_pristine[r.file].size());
         fm.Heal();
+        if (tr) fprintf(stderr, "[%d] healed %.4f\n", (int)getpid(), vx::elapsed());
         if (!n.Invalidate(x1) || n.tip()->GetBlockHash() != L.blocks.at(x1).prev) {
             out.violation("B-harness-invalidate", "could not disconnect X1/X2 with intact files", FaultStr(recs, f));
             return;
